@@ -34,7 +34,9 @@ def owns(facts, ty_key, pred, _seen=None, _depth=0):
     if k == "tuple":
         return any(owns(facts, a, pred, _seen, _depth + 1) for a in t["tys"])
     if k == "closure":
-        return any(owns(facts, a, pred, _seen, _depth + 1) for a in t["args"] if isinstance(a, str))
+        # closure generics = parent generics.., kind, signature, tupled captures: only the captures are owned
+        ups = [a for a in t["args"] if isinstance(a, str)][-1:]
+        return any(owns(facts, a, pred, _seen, _depth + 1) for a in ups)
     if k == "adt":
         nm = t["name"]
         if nm in ("alloc::collections::binary_heap::PeekMut", "core::slice::IterMut", "core::slice::Iter",
